@@ -357,7 +357,10 @@ def tt_renumber(
     newshape = np.array(shape)
     newsubs = subs.copy()
     for i in range(0, len(shape)):
-        if not number_range[i] == slice(None, None, None):
+        if not (
+            isinstance(number_range[i], slice)
+            and number_range[i] == slice(None, None, None)
+        ):
             if subs.size == 0:
                 if not isinstance(number_range[i], slice):
                     # This should be statically determinable but mypy unhappy
